@@ -331,5 +331,5 @@ func init() {
 		res.Obls = append(res.Obls, genPure(w)...)
 	}
 	regProp("C08", "proof", "write frame of the interpreter loop: for every opcode case (completed iterations and iterations that fail midway) every memory cell of an object that existed before the run, other than the VM value and its private stack/scopes arrays, is unchanged; scope maps written by OpStore/OpInc are created by this run",
-		[]string{`/frame$`, `/frame-at-panic$`, `inv-(init|pres)\[(stack-own|scopes-own|scopes-fresh|prog|stack)\]`, `^vm\.VM\.Run/pre-sat$`, `inv-sat$`}, pureExtra)
+		[]string{`/frame$`, `/frame-at-panic$`, `/env-call:args-not-owned$`, `inv-(init|pres)\[(stack-own|scopes-own|scopes-fresh|prog|stack)\]`, `^vm\.VM\.Run/pre-sat$`, `inv-sat$`}, pureExtra)
 }
